@@ -66,16 +66,87 @@ def read_text(path):
         return f.read()
 
 
-def build(s):
-    """abstract spectrum -> dadi.Spectrum with exactly these data, mask, flag, labels"""
-    import dadi
+LAYOUTS = ['c', 'fortran', 'transpose', 'reorder', 'slice']
 
-    def val(x):
-        return float(Fraction(x)) if x not in ('nan', 'inf', '-inf') else float(x)
-    data = np.array([val(x) for x in s['d']], dtype=float).reshape(s['sh'])
-    mask = np.array(s['m'], dtype=bool).reshape(s['sh'])
+
+def _val(x):
+    return float(Fraction(x)) if x not in ('nan', 'inf', '-inf') else float(x)
+
+
+def _perm_for(sh, key):
+    """a deterministic non-identity axis permutation for this shape"""
+    n = len(sh)
+    perm = list(range(n))
+    r = random.Random(key * 7919 + n)
+    while perm == list(range(n)):
+        r.shuffle(perm)
+    return perm
+
+
+def lay_out(arr, layout, key, filler):
+    """an array with the same logical content as arr (C-order reading) but, where the layout allows it, a
+    memory order that is NOT C-contiguous: Fortran order, a transposed view, or a strided slice of a larger array"""
+    arr = np.ascontiguousarray(arr)
+    if layout == 'fortran':
+        return np.asfortranarray(arr)
+    if layout in ('transpose', 'reorder') and arr.ndim >= 2:
+        perm = _perm_for(arr.shape, key)
+        inv = [perm.index(j) for j in range(arr.ndim)]
+        base = np.ascontiguousarray(arr.transpose(inv))      # base.transpose(perm) == arr
+        return base.transpose(perm)
+    if layout == 'slice':
+        ax = key % arr.ndim
+        shape = list(arr.shape)
+        shape[ax] = 2 * shape[ax]
+        big = np.full(shape, filler, dtype=arr.dtype)
+        idx = [slice(None)] * arr.ndim
+        idx[ax] = slice(0, None, 2)
+        big[tuple(idx)] = arr
+        return big[tuple(idx)]
+    return arr
+
+
+def build(s, layout='c', key=0):
+    """abstract spectrum -> dadi.Spectrum with exactly these (logical) data, mask, flag, labels.  layout chooses how
+    the object is obtained, hence its memory order: 'c' plain constructor; 'fortran' constructor on Fortran-ordered
+    arrays; 'transpose' fs.transpose(axes); 'reorder' fs.reorder_pops(order); 'slice' fs[::2] of a larger Spectrum."""
+    import dadi
+    sh = list(s['sh'])
+    data = np.array([_val(x) for x in s['d']], dtype=float).reshape(sh)
+    mask = np.array(s['m'], dtype=bool).reshape(sh)
     ids = [''.join(l) for l in s['ids']] or None
-    return dadi.Spectrum(data, mask=mask, mask_corners=False, data_folded=bool(s['f']), check_folding=False, pop_ids=ids)
+    kw = dict(mask_corners=False, data_folded=bool(s['f']), check_folding=False)
+    nd = len(sh)
+    if layout == 'fortran':
+        return dadi.Spectrum(np.asfortranarray(data), mask=np.asfortranarray(mask), pop_ids=ids, **kw)
+    if layout in ('transpose', 'reorder') and nd >= 2:
+        perm = _perm_for(sh, key)
+        inv = [perm.index(j) for j in range(nd)]
+        base_ids = [ids[j] for j in inv] if ids else None
+        base = dadi.Spectrum(np.ascontiguousarray(data.transpose(inv)), mask=np.ascontiguousarray(mask.transpose(inv)), pop_ids=base_ids, **kw)
+        if layout == 'reorder':
+            return base.reorder_pops([j + 1 for j in perm])
+        fs = base.transpose(perm)
+        fs.pop_ids = ids            # transpose does not move the labels
+        return fs
+    if layout == 'slice':
+        ax = key % nd
+        big_sh = list(sh)
+        big_sh[ax] = 2 * sh[ax]
+        idx = [slice(None)] * nd
+        idx[ax] = slice(0, None, 2)
+        bd = np.full(big_sh, 777.25)
+        bm = np.ones(big_sh, dtype=bool)
+        bd[tuple(idx)] = data
+        bm[tuple(idx)] = mask
+        big = dadi.Spectrum(bd, mask=bm, pop_ids=ids, **kw)
+        return big[tuple(idx)]
+    return dadi.Spectrum(data, mask=mask, pop_ids=ids, **kw)
+
+
+def describe_layout(a):
+    d = np.asarray(getattr(a, 'data', a))
+    return {'c_contiguous': bool(d.flags['C_CONTIGUOUS']), 'f_contiguous': bool(d.flags['F_CONTIGUOUS'])}
 
 
 # --------------------------------------------------------------------------
@@ -91,7 +162,9 @@ def execute(op, inp, rid, tmpd):
     comments = [''.join(c) for c in inp.get('comments', [])]
     if op == 'roundtrip':
         rec['site'] = 'Spectrum.to_file/from_file' + ('[gzip]' if gz else '')
-        fs = build(inp['s'])
+        fs = build(inp['s'], inp.get('layout', 'c'), inp.get('lkey', 0))
+        inp['s'] = enc(fs)                      # the logical array of the object actually written
+        inp['mem'] = describe_layout(fs)
         try:
             fs.to_file(path, precision=inp['p'], comment_lines=comments, foldmaskinfo=inp['fmi'])
         except Exception as e:
@@ -121,9 +194,15 @@ def execute(op, inp, rid, tmpd):
     elif op == 'array_roundtrip':
         rec['site'] = 'Numerics.array_to_file/array_from_file'
         a = inp['a']
-        data = np.array([float(Fraction(x)) if x not in ('nan', 'inf', '-inf') else float(x) for x in a['d']], dtype=float).reshape(a['sh'])
+        lay, lkey = inp.get('layout', 'c'), inp.get('lkey', 0)
+        data = lay_out(np.array([_val(x) for x in a['d']], dtype=float).reshape(a['sh']), lay, lkey, 777.25)
         if any(a['m']):
-            data = np.ma.masked_array(data, mask=np.array(a['m'], dtype=bool).reshape(a['sh']), fill_value=np.nan)
+            data = np.ma.masked_array(data, mask=lay_out(np.array(a['m'], dtype=bool).reshape(a['sh']), lay, lkey, True), fill_value=np.nan)
+            a['d'] = rats(np.asarray(data.data, dtype=float).ravel())      # the logical array actually passed
+            a['m'] = [bool(b) for b in np.ma.getmaskarray(data).ravel()]
+        else:
+            a['d'] = rats(np.asarray(data, dtype=float).ravel())
+        inp['mem'] = describe_layout(data)
         try:
             Numerics.array_to_file(data, path, precision=inp['p'], comment_lines=comments)
         except Exception as e:
@@ -148,7 +227,9 @@ def execute(op, inp, rid, tmpd):
             rec['out'] = {'raised': type(e).__name__, 'msg': str(e)[:100]}
     elif op == 'pickle':
         rec['site'] = 'pickle(Spectrum)'
-        fs = build(inp['s'])
+        fs = build(inp['s'], inp.get('layout', 'c'), inp.get('lkey', 0))
+        inp['s'] = enc(fs)
+        inp['mem'] = describe_layout(fs)
         fs.extrap_x = None if inp['x'] == 'none' else float(Fraction(inp['x']))
         try:
             import copyreg
@@ -247,6 +328,14 @@ def new_text(rng, s, p, comments, style):
     return '\n'.join(lines) + '\n'
 
 
+def rand_layout(rng, sh):
+    """most multi-dimensional objects are NOT C-contiguous (results of reorder_pops / transpose, Fortran-ordered
+    input, strided slices); 1-D ones can only be strided"""
+    if len(sh) == 1:
+        return rng.choice(['c', 'c', 'slice'])
+    return rng.choice(['c', 'fortran', 'transpose', 'reorder', 'slice', 'fortran', 'transpose', 'reorder'])
+
+
 def cases(ctx):
     rng = random.Random(ctx.seed + 14)
     out = []
@@ -255,7 +344,8 @@ def cases(ctx):
         sh = rand_shape(rng, ctx.quick)
         s = rand_abstract(rng, sh)
         inp = {'s': s, 'p': rng.choice([16, 16, 17, 18, 19, 20]), 'comments': rand_comments(rng),
-               'fmi': rng.random() < 0.8, 'gz': rng.random() < 0.35, 'mc': rng.random() < 0.5}
+               'fmi': rng.random() < 0.8, 'gz': rng.random() < 0.35, 'mc': rng.random() < 0.5,
+               'layout': rand_layout(rng, sh), 'lkey': rng.randrange(1000)}
         out.append(('roundtrip', inp))
     # the abstract spectra of the exhaustive model (small shapes incl. singleton axes, every mask), plain and gzip
     for sh in ([1], [3], [1, 2], [2, 1], [2, 2], [1, 2, 1]):
@@ -264,7 +354,7 @@ def cases(ctx):
             s = rand_abstract(rng, sh)
             s['m'] = [bool(mbits >> k & 1) for k in range(n)]
             out.append(('roundtrip', {'s': s, 'p': rng.choice([16, 17, 20]), 'comments': rand_comments(rng), 'fmi': True,
-                                      'gz': mbits % 3 == 0, 'mc': False}))
+                                      'gz': mbits % 3 == 0, 'mc': False, 'layout': LAYOUTS[mbits % len(LAYOUTS)], 'lkey': mbits}))
     # hand-written files: pre-1.3 format and irregular blanks, plain and gzip
     n_hand = 40 if ctx.quick else 400
     for t in range(n_hand):
@@ -287,14 +377,16 @@ def cases(ctx):
         s = rand_abstract(rng, sh)
         masked = rng.random() < 0.4
         a = {'sh': sh, 'd': s['d'], 'm': s['m'] if masked else [False] * len(s['d'])}
-        out.append(('array_roundtrip', {'a': a, 'p': rng.choice([16, 17, 18, 20]), 'comments': rand_comments(rng)}))
+        out.append(('array_roundtrip', {'a': a, 'p': rng.choice([16, 17, 18, 20]), 'comments': rand_comments(rng),
+                                        'layout': rand_layout(rng, sh), 'lkey': rng.randrange(1000)}))
     # pickle / copy
     n_p = 36 if ctx.quick else 360
     for t in range(n_p):
         sh = rand_shape(rng, True)
         s = rand_abstract(rng, sh)
         via = rng.choice(['pickle', 'pickle', 'pickle', 'deepcopy', 'copy'])
-        out.append(('pickle', {'s': s, 'x': rng.choice(['none', rat(1.0 / rng.randint(10, 200))]), 'protocol': t % (pickle.HIGHEST_PROTOCOL + 1), 'via': via}))
+        out.append(('pickle', {'s': s, 'x': rng.choice(['none', rat(1.0 / rng.randint(10, 200))]), 'protocol': t % (pickle.HIGHEST_PROTOCOL + 1), 'via': via,
+                               'layout': rand_layout(rng, sh), 'lkey': rng.randrange(1000)}))
     return out
 
 
@@ -343,13 +435,13 @@ def nontrivial(r):
     i = r['in']
     if r['op'] == 'roundtrip':
         s = i['s']
-        return ('rt', tuple(s['sh']), s['f'], tuple(''.join(l) for l in s['ids']), i['p'], len(i['comments']), i['fmi'], i['gz'], i['mc'], tuple(s['m']))
+        return ('rt', tuple(s['sh']), s['f'], tuple(''.join(l) for l in s['ids']), i['p'], len(i['comments']), i['fmi'], i['gz'], i['mc'], tuple(s['m']), i.get('layout'))
     if r['op'] in ('from_file', 'array_from_file'):
         return (r['op'], i['origin'], i.get('gz'), i.get('mc'), len(i['file']['pre']), len(i['file']['body'][0]) if i['file']['body'] else 0)
     if r['op'] == 'array_roundtrip':
-        return ('arr', tuple(i['a']['sh']), any(i['a']['m']), i['p'], len(i['comments']))
+        return ('arr', tuple(i['a']['sh']), any(i['a']['m']), i['p'], len(i['comments']), i.get('layout'))
     s = i['s']
-    return ('pickle', tuple(s['sh']), s['f'], bool(s['ids']), i['x'] != 'none', i['protocol'], i['via'])
+    return ('pickle', tuple(s['sh']), s['f'], bool(s['ids']), i['x'] != 'none', i['protocol'], i['via'], i.get('layout'))
 
 
 def mutate(rec):
@@ -417,7 +509,8 @@ def run(ctx):
              'folded flag, labels with blanks / the words folded, unfolded / empty, 0-5 comments, precision 16-20, plain and .gz names, current and '
              'pre-1.3 format, mask_corners on/off) plus every mask of the small shapes of the exhaustive model; hand-written pre-1.3 and '
              'irregular-blank files; array_to_file/array_from_file incl. masked arrays; files of one writer given to the other reader; '
-             'pickle protocols 0-5, copy, deepcopy. Distinct by the full option tuple',
+             'pickle protocols 0-5, copy, deepcopy. Most 2-5-D objects written / pickled are NOT C-contiguous in memory (Fortran-ordered input, '
+             'fs.transpose, fs.reorder_pops, strided slices of a larger Spectrum); the record holds the logical array. Distinct by the full option tuple incl. layout',
         assumptions=['BigInteger rational arithmetic of the Rat override (self-tested against the TLA+ definitions)',
                      'number tokens of a file are recorded as the exact rational value of their decimal text',
                      'written precision: |token - v| <= 5*10^-p |v|; read back: additionally TauParse = 2.5e-16 relative for the decimal->double conversion',
